@@ -1404,6 +1404,268 @@ theorem Utf8.wf (s : Bytes) (h : validUtf8 s = true) : Wf s :=
   wf_of_wf' a b
 
 
+/-! ## feature resolution (`collect_feature_maps` on the selected records) -/
+
+/-- `Some(b)` comes out of the final probe only -/
+theorem binarySearchBy_some {n : Nat} {probe : Nat → Except Err Ordering} {b : Nat}
+    (h : binarySearchBy n probe = .ok (some b)) : probe b = .ok .eq := by
+  unfold binarySearchBy at h
+  split at h
+  · cases h
+  · simp only [bind, Except.bind] at h
+    split at h
+    · cases h
+    · split at h
+      · cases h
+      · rename_i b' _ c hc
+        injection h with h
+        split at h
+        · rename_i hceq
+          injection h with h; subst h
+          cases c <;> simp_all
+        · cases h
+
+theorem recIndex_ok (tags : List Tag) (t : Tag) : ∃ r, recIndex tags t = .ok r := by
+  unfold recIndex
+  apply binarySearch_total
+  intro i hi
+  rw [List.getElem?_eq_getElem hi]; exact ⟨_, rfl⟩
+
+/-- whatever the order of the records: a hit of `RecordList::index` carries the tag -/
+theorem recIndex_some {tags : List Tag} {t : Tag} {b : Nat} (h : recIndex tags t = .ok (some b)) :
+    tags[b]? = some t := by
+  have hp := binarySearchBy_some h
+  cases hb : tags[b]? with
+  | none => simp [hb] at hp
+  | some x =>
+    simp only [hb] at hp
+    injection hp with hp
+    rw [Nat.compare_eq_eq] at hp
+    rw [hp]
+
+/-- on records sorted by tag (tags may repeat) `RecordList::index` misses only tags the list does not have -/
+theorem recIndex_none_sorted {tags : List Tag} (hs : tags.Pairwise (· ≤ ·)) {t : Tag}
+    (h : recIndex tags t = .ok none) : t ∉ tags := by
+  let p : Nat → Ordering := fun i => match tags[i]? with | some x => compare x t | none => .gt
+  have hle : ∀ i j (hi : i < j) (hj : j < tags.length), tags[i] ≤ tags[j] := by
+    intro i j hi hj; exact List.pairwise_iff_getElem.1 hs i j (by omega) hj hi
+  have hm : Monotone tags.length p := by
+    intro i hi
+    simp only [p]
+    rw [List.getElem?_eq_getElem hi, List.getElem?_eq_getElem (by omega)]
+    exact rank_compare_mono (hle i (i + 1) (by omega) hi)
+  have hf := binarySearch_finds (p := p)
+    (fun i o hi ho => by
+      rw [List.getElem?_eq_getElem hi] at ho
+      injection ho with ho
+      simp only [p]; rw [List.getElem?_eq_getElem hi]; exact ho.symm) hm none h
+  intro hmem
+  obtain ⟨i, hi, rfl⟩ := List.getElem_of_mem hmem
+  have := hf.2 rfl i hi
+  simp only [p] at this
+  rw [List.getElem?_eq_getElem hi] at this
+  simp at this
+
+theorem findTableFeature_ok (tb : Table) (ft : Tag) : ∃ r, findTableFeature tb ft = .ok r := by
+  unfold findTableFeature
+  obtain ⟨r, hr⟩ := recIndex_ok tb.features ft
+  simp only [bind, Except.bind, hr]
+  cases r <;> exact ⟨_, rfl⟩
+
+/-- the record the global search returns carries the tag and no earlier record does — for every FeatureList,
+    sorted or not -/
+theorem findTableFeature_some {tb : Table} {ft : Tag} {i : Nat} (h : findTableFeature tb ft = .ok (some i)) :
+    tb.features[i]? = some ft ∧ ∀ j, j < i → tb.features[j]? ≠ some ft := by
+  unfold findTableFeature at h
+  obtain ⟨r, hr⟩ := recIndex_ok tb.features ft
+  simp only [bind, Except.bind, hr] at h
+  cases r with
+  | none => cases h
+  | some idx =>
+    have hidx := recIndex_some hr
+    simp only at h
+    injection h with h; injection h with h
+    cases hf : (List.range idx).find? (fun i => tb.features[i]? == some ft) with
+    | none =>
+      rw [hf] at h; simp only [Option.getD_none] at h; subst h
+      refine ⟨hidx, ?_⟩
+      intro j hj
+      have := (List.find?_range_eq_none.1 hf) j hj
+      simpa using this
+    | some k =>
+      rw [hf] at h; simp only [Option.getD_some] at h; subst h
+      obtain ⟨h1, _, h3⟩ := List.find?_range_eq_some.1 hf
+      refine ⟨by simpa using h1, ?_⟩
+      intro j hj
+      have := h3 j hj
+      simpa using this
+
+/-- on a FeatureList sorted by tag the global search misses only tags without a record -/
+theorem findTableFeature_none_sorted {tb : Table} (hs : tb.features.Pairwise (· ≤ ·)) {ft : Tag}
+    (h : findTableFeature tb ft = .ok none) : ft ∉ tb.features := by
+  unfold findTableFeature at h
+  obtain ⟨r, hr⟩ := recIndex_ok tb.features ft
+  simp only [bind, Except.bind, hr] at h
+  cases r with
+  | none => exact recIndex_none_sorted hs hr
+  | some idx => cases h
+
+
+theorem langFeatureAt_present (tables : List (Option Table)) (sels : List (Option Selection)) (t : Nat) (ft : Tag)
+    (h : (tables[t]?.join).isSome = false) : langFeatureAt tables sels t ft = none := by
+  unfold langFeatureAt
+  cases ht : tables[t]?.join with
+  | none => rfl
+  | some tb => simp [ht] at h
+
+theorem anyFeatureAt_present (tables : List (Option Table)) (t : Nat) (ft : Tag)
+    (h : (tables[t]?.join).isSome = false) : anyFeatureAt tables t ft = none := by
+  unfold anyFeatureAt
+  cases ht : tables[t]?.join with
+  | none => rfl
+  | some tb => simp [ht] at h
+
+/-- the two font searches of one `collect_feature_maps` iteration, on the selected records -/
+def resolve (c : Map.Cfg) (tables : List (Option Table)) (sels : List (Option Selection)) (info : Map.Info) :
+    Option Nat × Option Nat :=
+  let l0 := langFeatureAt tables sels 0 info.tag
+  let l1 := langFeatureAt tables sels 1 info.tag
+  if l0.isSome || l1.isSome then (l0, l1)
+  else if info.flags &&& c.fGlobalSearch ≠ 0 then (anyFeatureAt tables 0 info.tag, anyFeatureAt tables 1 info.tag)
+  else (none, none)
+
+theorem findFeature_mapFont (c : Map.Cfg) (tables : List (Option Table)) (sels : List (Option Selection))
+    (lc : Nat → Nat) (fl : Nat → Nat → Option (List Nat)) (info : Map.Info) :
+    Map.findFeature c (mapFont tables sels lc fl) info = resolve c tables sels info := by
+  have hl : ∀ t, (if (mapFont tables sels lc fl).present t then (mapFont tables sels lc fl).langFeature t info.tag else none)
+      = langFeatureAt tables sels t info.tag := by
+    intro t
+    by_cases h : (mapFont tables sels lc fl).present t = true
+    · rw [if_pos h]; rfl
+    · rw [if_neg h]; symm; apply langFeatureAt_present
+      have : (mapFont tables sels lc fl).present t = (tables[t]?.join).isSome := rfl
+      rw [← this]; simpa using h
+  have ha : ∀ t, (if (mapFont tables sels lc fl).present t then (mapFont tables sels lc fl).anyFeature t info.tag else none)
+      = anyFeatureAt tables t info.tag := by
+    intro t
+    by_cases h : (mapFont tables sels lc fl).present t = true
+    · rw [if_pos h]; rfl
+    · rw [if_neg h]; symm; apply anyFeatureAt_present
+      have : (mapFont tables sels lc fl).present t = (tables[t]?.join).isSome := rfl
+      rw [← this]; simpa using h
+  unfold Map.findFeature resolve
+  simp only [hl, ha]
+
+/-- every entry of the allocation loop's result was made for one of the infos, with the indices of its two searches -/
+theorem feats_index_from {c : Map.Cfg} (font : Map.Font) (infos : List Map.Info) :
+    ∀ (l : List Map.Info) (st : Map.Alloc), (∀ x ∈ l, x ∈ infos) →
+      (∀ f ∈ st.feats, ∃ info ∈ infos, info.tag = f.tag ∧ (f.index0, f.index1) = Map.findFeature c font info) →
+      ∀ f ∈ (l.foldl (Map.allocStep c font) st).feats,
+        ∃ info ∈ infos, info.tag = f.tag ∧ (f.index0, f.index1) = Map.findFeature c font info
+  | [], _, _, h => h
+  | x :: l, st, hl, h => by
+    simp only [List.foldl_cons]
+    apply feats_index_from font infos l _ (fun y hy => hl y (List.mem_cons_of_mem _ hy))
+    unfold Map.allocStep
+    split
+    · exact h
+    · simp only []
+      split
+      · exact h
+      · split
+        · intro f hf
+          simp only [List.mem_append, List.mem_singleton] at hf
+          rcases hf with hf | hf
+          · exact h f hf
+          · subst hf; exact ⟨x, hl x List.mem_cons_self, rfl, rfl⟩
+        · intro f hf
+          simp only [List.mem_append, List.mem_singleton] at hf
+          rcases hf with hf | hf
+          · exact h f hf
+          · subst hf; exact ⟨x, hl x List.mem_cons_self, rfl, rfl⟩
+
+/-- the compiled feature maps, entry by entry: the (deduplicated) feature info it was made for, and its two indices -/
+theorem compileFeatures_index (c : Map.Cfg) (tables : List (Option Table)) (sels : List (Option Selection))
+    (isSimple : Bool) (infos : List Map.Info) (f : Map.FMap) (hf : f ∈ compileFeatures c tables sels isSimple infos) :
+    ∃ info ∈ Map.dedupInfos c isSimple infos, info.tag = f.tag ∧ (f.index0, f.index1) = resolve c tables sels info := by
+  unfold compileFeatures Map.collectFeatureMaps at hf
+  have key := feats_index_from (c := c) (mapFont tables sels (fun _ => 0) (fun _ _ => none))
+    (Map.dedupInfos c isSimple infos) (Map.dedupInfos c isSimple infos) (Map.Alloc.init c) (fun _ h => h)
+    (by intro f hf; simp [Map.Alloc.init] at hf)
+  have hmem : f ∈ (Map.allocAll c (mapFont tables sels (fun _ => 0) (fun _ _ => none)) (Map.dedupInfos c isSimple infos)).feats := by
+    simp only [] at hf
+    split at hf
+    · simpa [List.mem_mergeSort] using hf
+    · exact hf
+  obtain ⟨info, hi, ht, hx⟩ := key f hmem
+  exact ⟨info, hi, ht, by rw [hx, findFeature_mapFont]⟩
+
+
+/-- a record found through the selected language system is listed by it and carries the tag -/
+theorem langFeatureAt_some {tables : List (Option Table)} {sels : List (Option Selection)} {t : Nat} {ft : Tag} {i : Nat}
+    (h : langFeatureAt tables sels t ft = some i) :
+    ∃ tb s sys, tables[t]?.join = some tb ∧ sels[t]?.join = some s ∧
+      langSysOf tb s.scriptIndex s.langIndex = some sys ∧ i ∈ sys.features ∧ tb.features[i]? = some ft := by
+  unfold langFeatureAt at h
+  split at h
+  · rename_i tb s htb hs
+    unfold findLanguageFeature at h
+    split at h
+    · cases h
+    · rename_i sys hsys
+      have h1 := List.find?_some h
+      have h2 := List.mem_of_find?_eq_some h
+      exact ⟨tb, s, sys, htb, hs, hsys, h2, by simpa using h1⟩
+  · cases h
+
+/-- a record found by the global search carries the tag, and no earlier record of the FeatureList does -/
+theorem anyFeatureAt_some {tables : List (Option Table)} {t : Nat} {ft : Tag} {i : Nat}
+    (h : anyFeatureAt tables t ft = some i) :
+    ∃ tb, tables[t]?.join = some tb ∧ tb.features[i]? = some ft ∧ ∀ j, j < i → tb.features[j]? ≠ some ft := by
+  unfold anyFeatureAt at h
+  split at h
+  · rename_i tb htb
+    split at h
+    · rename_i r hr
+      subst h
+      exact ⟨tb, htb, findTableFeature_some hr⟩
+    · cases h
+  · cases h
+
+/-- the global search misses only when the (sorted) FeatureList has no record with the tag -/
+theorem anyFeatureAt_none {tables : List (Option Table)} {t : Nat} {ft : Tag} {tb : Table}
+    (htb : tables[t]?.join = some tb) (hs : tb.features.Pairwise (· ≤ ·)) (h : anyFeatureAt tables t ft = none) :
+    ft ∉ tb.features := by
+  unfold anyFeatureAt at h
+  rw [htb] at h
+  simp only at h
+  obtain ⟨r, hr⟩ := findTableFeature_ok tb ft
+  rw [hr] at h
+  simp only at h
+  subst h
+  exact findTableFeature_none_sorted hs hr
+
+/-- the deduplicated feature infos of the plan builder depend on the direction only through its class -/
+theorem planBuilder_dir (c : Map.Cfg) (dir : Nat) (h : 2 ≤ dir) : Map.planBuilder c dir [] = Map.planBuilder c 2 [] := by
+  unfold Map.planBuilder
+  have h0 : dir ≠ 0 := by omega
+  have h1 : dir ≠ 1 := by omega
+  have h2 : ¬ dir ≤ 1 := by omega
+  simp [h0, h1, h2]
+
+theorem plan_vert_has_global_search (dir : Nat) (info : Map.Info)
+    (hi : info ∈ Map.dedupInfos Map.genCfg (Map.planBuilder Map.genCfg dir []).isSimple (Map.planBuilder Map.genCfg dir []).infos)
+    (ht : info.tag = TAG_vert) : info.flags &&& Map.genCfg.fGlobalSearch ≠ 0 := by
+  have key : ∀ d, d ≤ 2 → ∀ info ∈ Map.dedupInfos Map.genCfg (Map.planBuilder Map.genCfg d []).isSimple (Map.planBuilder Map.genCfg d []).infos,
+      info.tag = TAG_vert → info.flags &&& Map.genCfg.fGlobalSearch ≠ 0 := by
+    decide +kernel
+  by_cases h : dir ≤ 2
+  · exact key dir h info hi ht
+  · have hd : 2 ≤ dir := by omega
+    rw [planBuilder_dir _ dir hd] at hi
+    exact key 2 (Nat.le_refl 2) info hi ht
+
+
 /-! ## evaluation helpers for the concrete theorems -/
 
 instance {α} [DecidableEq α] : DecidableEq (Except Err α) := fun a b =>
